@@ -62,7 +62,13 @@ func runC06(c C06Case, ev *Evid) (fs []Finding) {
 	switch c.Writer {
 	case "whispertool":
 		h := &histRunner{prop: "C06", l: c.H.L, now: now, m: NewModel(c.H.L), facts: map[string]int{}, dir: dir, path: path}
-		db, err := createWT(path, c.H.L)
+		var copts []wt.Option
+		if c.H.Now%7 == 0 {
+			// re-created in place over a longer, unrelated file (a caller without O_EXCL): still an exact-length file
+			os.WriteFile(path, make([]byte, int(c.H.L.FileSize())+5000), 0644) // zero-filled: only the length is unrelated
+			copts = append(copts, wt.WithOpenFileFlag(os.O_RDWR|os.O_CREATE))
+		}
+		db, err := createWT(path, c.H.L, copts...)
 		if err != nil {
 			add("create-error", "Create(%s): %v", c.H.L, err)
 			return
